@@ -71,6 +71,9 @@ def mk_op(op, a, b, bits):
             pass
     if op in CMP:
         bits = 1
+        if a == b and isinstance(a, tuple) and a and a[0] != 'f':
+            # values are side-effect-free expression trees: x == x, x <= x, x >= x hold, the rest do not
+            return C(1 if op in ('==', '<=', '>=') else 0, 1)
     return ('op', op, a, b, bits)
 
 
@@ -263,6 +266,10 @@ class Sim:
         return show(p)
 
     def load(self, p, bits=64):
+        if p[0] == 'field' and ('rd', p) not in self.store:
+            self.store[('rd', p)] = True
+            if getattr(self, 'cur_fn', None) is not None:
+                self.event({'kind': 'read', 'path': p, 'line': None})
         if p in self.store:
             return self.store[p]
         if p[0] == 'var' and len(p) > 3 and p[3] == 'const_global':
@@ -270,14 +277,14 @@ class Sim:
         v = S(self.pathname(p), bits)
         return v
 
-    def write(self, p, v, line=None, record_event=True):
+    def write(self, p, v, line=None, record_event=True, how='='):
         self.note_word(p, v)
         self.store[p] = v
         self.writes.append(p)
         if record_event and p[0] != 'var':
-            self.event({'kind': 'assign', 'path': p, 'value': v, 'line': line})
+            self.event({'kind': 'assign', 'path': p, 'value': v, 'line': line, 'how': how})
         elif record_event:
-            self.event({'kind': 'assign_local', 'path': p, 'value': v, 'line': line})
+            self.event({'kind': 'assign_local', 'path': p, 'value': v, 'line': line, 'how': how})
 
     def note_word(self, p, v):
         if isinstance(v, tuple) and v and v[0] == 's' and v in self.word_results:
@@ -414,7 +421,7 @@ class Sim:
             p = self.lv_path(e)
             old = self.rv(e)
             new = mk_op('+' if '++' in op else '-', old, C(1, bits), bits)
-            self.write(p, new, n.get('line'))
+            self.write(p, new, n.get('line'), how='++' if '++' in op else '--')
             return old if op.startswith('post') else ('lv', p, bits)
         raise AnalysisBroken('%s: unary operator %s' % (self.cur_fn['key'], op))
 
@@ -514,7 +521,7 @@ class Sim:
         items = tuple(self.rv(self.ev(i)) for i in n['items'])
         if n.get('scalar'):
             return items[0] if items else C(0)
-        return ('initlist', items)
+        return ('initlist', items, n.get('type', ''))
 
     def ev_lambda(self, n):
         return ('lambda', n['fn'])
@@ -824,9 +831,9 @@ class Sim:
                 pass
             elif visits[bid] == 1:
                 first_visit_mark[bid] = len(self.writes)
-            elif visits[bid] == 2:
+            elif visits[bid] <= self.eng.max_header_visits:
                 # widening: everything written since the first visit becomes unknown
-                for p in set(self.writes[first_visit_mark[bid]:]):
+                for p in sorted(set(self.writes[first_visit_mark[bid]:]), key=repr):
                     if p[0] == 'objver':
                         continue
                     old = self.store.get(p)
@@ -927,9 +934,10 @@ class Sim:
 
 
 class Engine:
-    def __init__(self, facts, max_paths=4000):
+    def __init__(self, facts, max_paths=4000, max_header_visits=2):
         self.facts = facts
         self.max_paths = max_paths
+        self.max_header_visits = max_header_visits
         self._bm = {}
         self._em = {}
         self._spin = {}
